@@ -15,6 +15,7 @@ import (
 	"fmt"
 	"io"
 	"net/http"
+	"net/http/httptest"
 	"net/url"
 	"strings"
 	"time"
@@ -151,6 +152,19 @@ func (o RO) coq() string {
 	return fmt.Sprintf("(mkRO %s %s %s %s %d %s %s %s %s %s %d %s %s %s)", o.Enc, sig, o.Alg, cN(o.Kid), o.Iss, cList(o.Aud, func(a string) string { return a }),
 		jOptZ(o.Exp), jOptZ(o.Nbf), jOptZ(o.Iat), cB(o.Jti), o.ClientID, cB(o.NestedReq), cB(o.NestedURI), o.Params.coq())
 }
+// does the object name the URL of the request that delivers it among its audiences?
+func (o *RO) namesRequestURL() bool {
+	if o == nil {
+		return false
+	}
+	for _, a := range o.Aud {
+		if a == "AudRequestURL" || a == "AudMtlsRequestURL" {
+			return true
+		}
+	}
+	return false
+}
+
 func optRO(o *RO) string {
 	if o == nil {
 		return "None"
@@ -374,8 +388,8 @@ func (jw *JWorld) claims(o *RO) map[string]any {
 }
 
 // the concrete value of an abstract audience member (Jar.v `audience`); jw.reqURI is the RequestURI of the
-// request that delivers the object (unknown for an object inside the query string of that very request:
-// the path alone stands in)
+// request that delivers the object (an object by value that names the request URL is sent by POST, whose
+// RequestURI is the bare path)
 const c07MTLSHost = "https://mtls.as.example" // what world.go passes to provider.WithMTLS
 
 func (jw *JWorld) audString(a string, o *RO) string {
@@ -547,7 +561,15 @@ func (jw *JWorld) Exec(step int, o JOp) JObs {
 			}
 			return nil
 		}
-		rec, pan := w.serve("GET", pfx+"/authorize?"+v.Encode(), nil, nil)
+		var rec *httptest.ResponseRecorder
+		var pan any
+		if o.Jar == "value" && o.Obj.namesRequestURL() {
+			// an object by value cannot name the URL of a GET request that contains it: sent by POST, whose
+			// RequestURI is the bare path the object names (the method is not modelled: it must not matter)
+			rec, pan = w.serve("POST", pfx+"/authorize", v, nil)
+		} else {
+			rec, pan = w.serve("GET", pfx+"/authorize?"+v.Encode(), nil, nil)
+		}
 		extraRoundTrip = nil
 		obs = w.absAuthorize(rec, pan)
 	case "JPar":
